@@ -107,3 +107,10 @@ package adapter
 //@ func (a *Adapter) SetRouter(r) (err)
 //@   modifies a.router, r.sealed
 //@   ensures[C11,C14,C17] a != nil ==> adapterWF(a)
+
+// The parameters query (C18: "the limit in force is the one in state" - and the one the query reports): the
+// answer is the stored parameters, unaltered; nothing is modified (frame).
+//@ func (s queryServer) Params(ctx, req) (resp, err)
+//@   requires[inv] s.Adapter != nil
+//@   ensures[C18] err == nil ==> req != nil && resp != nil && item_set[s.Adapter.params] && resp.Params == item_params[s.Adapter.params]
+//@   ensures[C18] req == nil ==> err != nil
